@@ -75,6 +75,7 @@ package escape
 //@ spec inWL(wl []*Node, x *Node) bool = exists k int :: 0 <= k && k < len(wl) && wl[k] == x
 //@ func EscapeGraph.computeEdgeClosure
 //@   property C15
+//@   option append_both
 //@   requires g != nil && g.status != nil && g.edges != nil && g.rationales != nil
 //@   ensures extensive{grew,grew2}: statusGrew(g)
 //@   ensures propagated{prop,prop2}: g.status[b] >= old(g.status[a])
